@@ -266,6 +266,7 @@ func runC01(c *Ctx) {
 		"and packets are handed to the current transport under transportMu (C07-D8: a send in flight on the discarded transport is lost)", 5)
 	c10ParserPerConnectionRule(c, "C01-D9")
 	sendUnderTransportLock(c, "C01-D9")
+	c01Round4(c)
 
 	c.Rule("C01-D8", "transport upgrade keeps packets whole (shared with C02-D5/C07-D2): the swap, the flush of the old transport's queue onto the new one and the UPGRADE bookkeeping happen in one write-locked region, "+
 		"so a concurrent Send cannot land between a binary event's header and its attachments", 12)
